@@ -115,7 +115,7 @@ def handle (ws : List String) : String :=
     | some b =>
       (match Notif.msgFromOctets b with
        | .ok (k, m) =>
-         let kn := match k with | .open => "open" | .notification => "notification" | .keepalive => "keepalive"
+         let kn := match k with | .open => "open" | .notification => "notification" | .keepalive => "keepalive" | .routeRefresh => "routerefresh"
          let l := showO toString (Open.length m)
          let t := showO (fun (v : UInt8) => toString v.toNat) (Notif.msgType m)
          s!"ok {kn} len={l} type={t}"
